@@ -126,7 +126,7 @@ def entry_state(prog, F, layout, mode):
     opt = [("v", F.gdid(p["did"])) for p in F.params if p["name"] == "options"][0]
     # the parent's own standard streams occupy 0..2 unless a handle sits there
     for k in LOW:
-        tab_set(st, k, ("parent's fd %d" % k, False))
+        tab_set(st, k, ("parent's fd %d" % k, None))
     expected = {}
     vals = {}
     for name, l in zip(("in", "out", "err"), layout):
@@ -140,9 +140,9 @@ def entry_state(prog, F, layout, mode):
         v = vals[name]
         cur = tab_get(st, v)
         if cur is None or str(cur[0]).startswith("parent's fd"):
-            # library owned handles are close-on-exec; take that (the harder case) for every handle
+            # the close-on-exec flag of a handle on entry is unknown (None): library handles have it, user handles may not
             tab_set(st, v, ("object given for %s" % ("out/err" if (name == "err" and vals["err"] == vals["out"]) or
-                                                    (name == "out" and vals["err"] == vals["out"]) else name), True))
+                                                    (name == "out" and vals["err"] == vals["out"]) else name), None))
         expected[name] = tab_get(st, v)[0]
     for name in ("in", "out", "err"):
         expected[name] = tab_get(st, vals[name])[0]
